@@ -117,9 +117,9 @@ type World struct {
 
 func fauxMerkleModeOpt(bapp *baseapp.BaseApp) { bapp.SetFauxMerkleMode() }
 
-// New builds the application, runs InitChain and one committed block at T0, and returns a World whose
-// Base() context reads the committed state. Nothing in here is random.
-func New(cfg Config) (*World, error) {
+// NewUnstarted builds the application and runs InitChain only (no block yet): the starting point of
+// a replay through the real ABCI pipeline.
+func NewUnstarted(cfg Config) (*World, error) {
 	db := dbm.NewMemDB()
 	appOptions := simtestutil.AppOptionsMap{
 		flags.FlagHome:     "/nonexistent-verif-home",
@@ -142,16 +142,36 @@ func New(cfg Config) (*World, error) {
 	}); err != nil {
 		return nil, err
 	}
+	return &World{App: a, Cfg: cfg, K: a.FundraisingKeeper}, nil
+}
+
+// New builds the application, runs InitChain and one committed block at T0, and returns a World whose
+// Base() context reads the committed state. Nothing in here is random.
+func New(cfg Config) (*World, error) {
+	w, err := NewUnstarted(cfg)
+	if err != nil {
+		return nil, err
+	}
+	a := w.App
 	if _, err := a.FinalizeBlock(&abci.RequestFinalizeBlock{Height: 1, Time: T0}); err != nil {
 		return nil, fmt.Errorf("first block: %w", err)
 	}
 	if _, err := a.Commit(); err != nil {
 		return nil, err
 	}
-	w := &World{App: a, Cfg: cfg, K: a.FundraisingKeeper}
 	w.base = a.BaseApp.NewUncachedContext(false, cmtproto.Header{ChainID: ChainID, Height: 1, Time: T0}).
 		WithEventManager(sdk.NewEventManager())
 	return w, nil
+}
+
+// AccountNumber is the genesis account number of an actor (its index in the fixed actor order).
+func AccountNumber(name string) uint64 {
+	for i, n := range actorNames {
+		if n == name {
+			return uint64(i)
+		}
+	}
+	panic("unknown actor " + name)
 }
 
 // Base returns a fresh copy-on-write branch of the committed state. The committed state itself is
